@@ -148,11 +148,27 @@ func c01Walker(w *World, r *Recorder, name string, it *types.Interface) {
 		r.Undecide("C01-R1", name, "-", "walker not found")
 		return
 	}
+	c01WalkerFn(w, r, fn, name, it)
+}
+
+// c01WalkerFn: the walker rule on fn, whose first parameter (or receiver) is
+// the object validated. Getters reached by static calls are kept opaque like
+// the interface invokes of the generic walkers.
+func c01WalkerFn(w *World, r *Recorder, fn *ssa.Function, name string, it *types.Interface) {
 	filter := w.Root.Func("FilterError")
+	getters := map[string]bool{}
+	for _, g := range getterNames(it) {
+		getters[g] = true
+	}
 	s := w.SummariseWith(fn, func(e *Engine) {
 		e.NoInline = map[*ssa.Function]bool{}
 		if filter != nil {
 			e.NoInline[filter] = true
+		}
+		for _, f := range w.Funcs {
+			if f.Signature.Recv() != nil && getters[f.Name()] {
+				e.NoInline[f] = true
+			}
 		}
 	})
 	r.Count("paths", len(s.Paths))
@@ -187,6 +203,20 @@ func c01Walker(w *World, r *Recorder, name string, it *types.Interface) {
 					bad = "getter " + ev.Method + " is called on " + avSubject(*ev.Recv) + ", not on the claims being validated"
 				}
 				e := ev
+				lastGet = &e
+			case ev.Recv == nil && ev.Static != nil && ev.Static.Signature.Recv() != nil && getters[ev.Method] && len(ev.Args) > 0:
+				// the getter called statically on the object (or on a copy of it)
+				subj := avSubject(ev.Args[0])
+				if a := ev.Args[0]; a.Kind == KAddr {
+					if v, has := p.St.mem[a.Loc]; has {
+						subj = v.name()
+					}
+				}
+				if subj != param {
+					bad = "getter " + ev.Method + " is called on " + subj + ", not on the claims being validated"
+				}
+				e := ev
+				e.Args = e.Args[1:]
 				lastGet = &e
 			case ev.Static == filter && filter != nil:
 				if lastGet == nil || len(ev.Args) != 2 || ev.Args[1].name() != resultElem(*lastGet, 1).name() {
@@ -272,6 +302,32 @@ func c01ValidateForwards(w *World, r *Recorder, t *types.Named, walker string) {
 	recv := fn.Params[0].Name()
 	ok := len(s.Paths) == 1
 	why := fmt.Sprintf("%d paths", len(s.Paths))
+	if !ok {
+		// not a forwarder: the method may walk the getters itself — the
+		// walker rule applies to it directly
+		var it *types.Interface
+		for _, cand := range []string{"IClaims", "ISwComponent"} {
+			if i := w.iface(w.Root, cand); i != nil && (types.Implements(t, i) || types.Implements(types.NewPointer(t), i)) {
+				it = i
+			}
+		}
+		if it != nil {
+			sub := NewRecorder(r.Property)
+			c01WalkerFn(w, sub, fn, key, it)
+			good := len(sub.Obs) > 0
+			for _, o := range sub.Obs {
+				if o.Verdict != "proved" {
+					good = false
+				}
+			}
+			if good {
+				for _, o := range sub.Obs {
+					r.add(o)
+				}
+				return
+			}
+		}
+	}
 	if ok {
 		p := s.Paths[0]
 		var call *Event
